@@ -33,7 +33,7 @@ func (i *RandomWeightedReferenceCriterionProvider) Spec_Provide(rankedCriteria *
 	}
 	generator := i.generator(i.NewCriterionRandomSeed)
 	expectedWeight := generator() * total
-	return FindCriterionInRange(&mappedWeights, expectedWeight)
+	return Spec_FindCriterionInRange(&mappedWeights, expectedWeight)
 }
 
 func (i *RandomWeightedReferenceCriterionManager) Spec_Identifier() string {
